@@ -17,9 +17,10 @@ CLAIM_TEXT = ("Theorems (coq/Props/C19.v, no axioms) over a model of the line sp
               "real parser (field-wise dump = the generator's structure), printed (bytes = the model's printer on the same description) "
               "and parsed again (dump unchanged); mutated and random texts: no panic, and whatever parses survives print -> parse; the "
               "model's dispatcher shape = the implementation's for every text it accepts.")
-CLAIM_NOTE = ("PARTIAL: the field payloads with their own nom parser (origin, time, connection, bandwidth, rtcp, rtpmap, fmtp, candidate, "
+CLAIM_NOTE = ("PARTIAL: the field payloads with their own nom parser (origin, time, connection, bandwidth, rtcp, rtpmap, fmtp, "
               "crypto remainder) are opaque in the model; their print/parse round trips and panic freedom are decided by the differential "
-              "runs only. Values that have no text form (IPv4 connection with a count but no TTL, an empty FEC_KEY list, a protocol token "
+              "runs only. The candidate attribute is modelled in full (Model/C19c.v, C19_candidate_roundtrip; addresses are the text in the line) "
+              "and compared field by field and byte by byte with IceCandidate::parse / Display. Values that have no text form (IPv4 connection with a count but no TTL, an empty FEC_KEY list, a protocol token "
               "beginning with '/') are outside the grammar the property quantifies over and excluded by media_wf / the generator.")
 TRUSTED = [
     "Coq 8.16.1 kernel; no axioms",
@@ -32,7 +33,7 @@ RULE = ("descriptions over every field's grammar: 0..3 media sections, 0..3 of e
         "numeric fields at 0 / 1 / max, all transport protocol and suite tokens plus tokens that extend them by one character, directions at "
         "both levels, ICE attributes, crypto lines with lifetimes 2^n and plain, unknown attributes with and without value; texts: the "
         "canonical rendering, mutations of it and random strings")
-PARTIAL = ["field payload parsers (origin, time, connection, bandwidth, rtcp, rtpmap, fmtp, candidate, crypto remainder) are abstracted by a validity predicate; exercised, not proved"]
+PARTIAL = ["field payload parsers (origin, time, connection, bandwidth, rtcp, rtpmap, fmtp, crypto remainder) are abstracted by a validity predicate; exercised, not proved (the candidate attribute is modelled and proved on its own, Model/C19c.v, addresses as the text that stands in the line)"]
 
 SUITES = ["AES_CM_128_HMAC_SHA1_80", "AES_CM_128_HMAC_SHA1_32", "F8_128_HMAC_SHA1_80", "AES_192_CM_HMAC_SHA1_80", "AES_192_CM_HMAC_SHA1_32",
           "AES_256_CM_HMAC_SHA1_80", "AES_256_CM_HMAC_SHA1_32", "AEAD_AES_128_GCM", "AEAD_AES_256_GCM"]
@@ -409,6 +410,44 @@ def gen_cases(rng, tier):
                         k += 1
                         continue
                     cases.append(["u%d" % k, "c19", "txt", t.encode().hex(), ""]); k += 1
+    # the candidate attribute on its own (Model/C19c.v): representable candidates, and lines around the edges of the grammar
+    k = 0
+    def cline(c):
+        return t_cand(c)[2:]
+    for i in range(150 if tier == "quick" else 3000):
+        c = g_cand(rng)
+        _CAND_VALID.add("c%d" % k)
+        cases.append(["c%d" % k, "c19", "cand", cline(c).encode().hex(), ""]); k += 1
+        if i % 3 == 0:
+            t = cline(c)
+            v = rng.randrange(12)
+            if v == 0:
+                t = t.replace(" ", "  ", 1 + rng.randrange(3))
+            elif v == 1:
+                t = t.replace(" ", "\t", 2)
+            elif v == 2:
+                t = t.replace(" typ ", " typ", 1)
+            elif v == 3:
+                t = t + " danglingkey"
+            elif v == 4:
+                t = t + " rport +5"
+            elif v == 5:
+                t = t + " rport " + rng.choice(["65535", "65536", "x", "-1", "00080"])
+            elif v == 6:
+                t = t + " raddr 192.0.2.9|x rport 9"
+            elif v == 7:
+                t = t + " raddr a.example raddr b.example rport 1 rport 2"
+            elif v == 8:
+                t = "candidate:" + "A" * rng.choice([31, 32, 33, 40]) + t[t.index(" "):]
+            elif v == 9:
+                p = t.split(" ")
+                p[rng.choice([1, 3, 5])] = rng.choice(["4294967295", "4294967296", "18446744073709551615", "18446744073709551616", "65535", "65536", "007", ""])
+                t = " ".join(p)
+            elif v == 10:
+                t = t.replace("candidate:", rng.choice(["candidate: ", "Candidate:", "candidate", "candidate:+/"]), 1)
+            else:
+                t = t[:rng.randrange(len(t))]
+            cases.append(["c%d" % k, "c19", "cand", t.encode().hex(), ""]); k += 1
     # mutated and random texts: no panic, and whatever parses must survive print -> parse
     base = [text_of(g_session(rng)) for _ in range(40)]
     for i in range(600 if tier == "quick" else 20000):
@@ -420,10 +459,53 @@ def gen_cases(rng, tier):
     return cases
 
 
+_CAND_VALID = set()
+
+
+def _cand_wf(dump):
+    """is the dumped candidate inside the domain the property speaks of: non-empty tokens, no empty address"""
+    f = dump.split("|")
+    if len(f) < 10:
+        return False
+    def tok(h):
+        return h not in ("''", "") and not any(c in bytes.fromhex(h) for c in b" \t\n\x0c\r")
+    def addr(a):
+        return a.startswith("U:") or (a.startswith("F:") and a[2:] not in ("''", ""))
+    if not (tok(f[0]) and tok(f[2]) and addr(f[4]) and tok(f[6])):
+        return False
+    if f[7] != "-" and not addr(f[7]):
+        return False
+    for kv in [x for x in f[9].strip("()").split("+") if x]:
+        k, _, v = kv.partition("=")
+        if not (tok(k) and tok(v)) or bytes.fromhex(k) in (b"raddr", b"rport"):
+            return False
+    return True
+
+
+def _cand_norm(s):
+    """addresses as the text that stands in the line (the model's view): U:<ip text> / F:<hex> -> hex of the text"""
+    def fix(m):
+        return m.group(1) + m.group(2).encode().hex()
+    s = re.sub(r"(\||^C=|C2=)U:([0-9A-Fa-f:.]+)", lambda m: m.group(1) + m.group(2).encode().hex(), s)
+    s = re.sub(r"(\||^C=|C2=)F:", lambda m: m.group(1), s)
+    return s
+
+
 def oracle(case, impl):
     out = []
     if "PANIC" in impl:
         return ["panic while parsing SDP: " + impl[-300:]]
+    if case[2] == "cand":
+        m = re.match(r"C=(\S+)(?:\tT=(\S*)\tC2=(\S+))?", impl)
+        if not m:
+            return ["no observation: " + impl[:200]]
+        if m.group(1) == "ERR":
+            if case[0] in _CAND_VALID:
+                return ["a candidate written from a representable value is rejected by the parser"]
+            return []
+        if _cand_wf(m.group(1)) and m.group(3) != m.group(1):
+            return ["candidate %s prints as %r which reads back as %s" % (m.group(1), bytes.fromhex(m.group(2)).decode("utf-8", "replace"), m.group(3))]
+        return []
     if case[2] == "val":
         if impl in ("ERR", "NOT-UTF8"):
             return ["a description written in canonical SDP is rejected by the parser"]
@@ -452,6 +534,8 @@ def _first_diff(a, b):
 
 def normalize_impl(case, s):
     s = s.split("\tPANIC")[0]
+    if case[2] == "cand":
+        return _cand_norm(s)
     m = re.search(r"\tSH=(.*)$", s)
     t2 = re.search(r"\tT2=(\S*)", s)
     return (m.group(1) if m else s) + ("\tT2=" + t2.group(1) if t2 else "")
@@ -459,6 +543,9 @@ def normalize_impl(case, s):
 
 def accepts(case, impl, model):
     """model: shape of its own parse, and its own print of that (as hex); compared when the implementation parsed the text"""
+    if case[2] == "cand":
+        # the candidate grammar is modelled in full: same verdict, same fields, same printed bytes, same second parse
+        return impl == "NOT-UTF8" or impl == model.strip()
     if not impl.startswith("S{"):
         return True        # rejected by a field parser the model abstracts (or not UTF-8)
     ishape, _, it2 = impl.partition("\tT2=")
